@@ -136,10 +136,12 @@ def _timestamp(ctx):
     pe = Prov(e)
     oks = [o for o in outcomes(e, pe) if o["kind"] == "ok"]
     enc = {}
+    n_arms = 0
     if len(oks) == 1:
         st = e.blocks[oks[0]["bb"]]["stmts"][oks[0]["idx"]]
         for term, dbb in codec.arms(pe, st["rv"]["ops"][0], oks[0]["bb"], oks[0]["idx"]):
             sv = path_variants(prog, pe, conditions(e, pe, dbb)).get(("param", 0))
+            n_arms += 1
             if sv and len(sv) == 1:
                 enc[next(iter(sv))] = term
     a = enc.get("WholeSeconds")
@@ -147,7 +149,7 @@ def _timestamp(ctx):
     ok = (a is not None and a[0] == "aggr" and a[2] == "Integer" and is_call(a[3][0][1], "core::convert::Into::into")
           and a[3][0][1][2] == (("field", ("variant", ("param", 0), "WholeSeconds"), "0"),)
           and b == ("aggr", "ciborium::value::Value", "Float", (("0", ("field", ("variant", ("param", 0), "FractionalSeconds"), "0")),)))
-    ctx.ob("R-enc", "timestamp-encode", ok and len(enc) == 2, "Timestamp encodes WholeSeconds as an integer of the same value and FractionalSeconds as a float",
+    ctx.ob("R-enc", "timestamp-encode", ok and len(enc) == 2 and n_arms == 2, "Timestamp encodes WholeSeconds as an integer of the same value and FractionalSeconds as a float",
            where=e.span, detail={k: show(v)[:80] for k, v in enc.items()})
 
 
